@@ -126,7 +126,7 @@ func decorate(r *rand.Rand, c *Case, calls []CallSpec, prefixOf map[string]strin
 // "exhaustive"); and all assignments of 1..k calls of the equal plugin to (name) x (type) x (one or two
 // arguments: the curried form deriveEqual(p) next to deriveEqual(p, q)) that contain at least one
 // one-argument call (stream "exhaustive-arity": argument lists of which one is a proper prefix of another).
-func ExhaustiveC11(r *rand.Rand, k int) []*Case {
+func ExhaustiveC11(r *rand.Rand, k int, thorough bool) []*Case {
 	plugins := Plugins("derive", nil)
 	pfx := map[string]string{"equal": "deriveEqual", "hash": "deriveHash"}
 	var out []*Case
@@ -170,13 +170,19 @@ func ExhaustiveC11(r *rand.Rand, k int) []*Case {
 		ka = 3
 	}
 	enum("exhaustive", opts, k, func([]opt) bool { return true })
+	// quick tier: all sequences of <= 2 calls, and the sequences of 3 calls over ONE type (a list and its
+	// proper prefix need the same element type to be confused); thorough tier: all sequences of <= 3 calls
 	enum("exhaustive-arity", optsA, ka, func(cur []opt) bool {
+		one := false
 		for _, o := range cur {
 			if o.arity == 1 {
-				return true
+				one = true
+			}
+			if !thorough && len(cur) > 2 && o.typ != cur[0].typ {
+				return false
 			}
 		}
-		return false
+		return one
 	})
 	return out
 }
@@ -577,10 +583,11 @@ var goKeywords = []string{"break", "case", "chan", "const", "continue", "default
 	"func", "go", "goto", "if", "import", "interface", "map", "package", "range", "return", "select", "struct", "switch", "type", "var"}
 var goPredeclared = []string{"len", "cap", "new", "make", "nil", "true", "false", "string", "int", "error", "any", "append"}
 
-// weirdValue: override values of unusual shape. restricted = the bare prefix is not usable as a
-// function name of its own (keyword), would shadow a predeclared identifier or could be captured by a
-// parameter / local of the emitted code: such prefixes are given only to (plugin, type) combinations
-// for which goderive mints no helper named by the bare prefix (see .work/new-defects-names.md).
+// weirdValue: override values of unusual shape. Since 60219e3 a helper is never named by a keyword or a
+// predeclared identifier, so every class may meet (plugin, type) combinations that need helpers
+// (`restricted` is kept for classes that must stay helper-free; none at present). A single-letter
+// prefix can still coincide with a local of the emitted code (hash=h: known finding F49); such runs are
+// generated and classified by the check, not hidden.
 type weirdValue struct {
 	v          string
 	class      string
@@ -590,13 +597,13 @@ type weirdValue struct {
 func weirdValues() []weirdValue {
 	var out []weirdValue
 	for _, k := range goKeywords {
-		out = append(out, weirdValue{k, "keyword", true})
+		out = append(out, weirdValue{k, "keyword", false})
 	}
 	for _, k := range goPredeclared {
-		out = append(out, weirdValue{k, "predeclared", true})
+		out = append(out, weirdValue{k, "predeclared", false})
 	}
 	for c := 'a'; c <= 'z'; c++ {
-		out = append(out, weirdValue{string(c), "letter", true})
+		out = append(out, weirdValue{string(c), "letter", false})
 	}
 	for _, k := range []string{"kipQz_", "mk2", "zed_9", "wob7_", "vax__"} {
 		out = append(out, weirdValue{k, "tail", false})
@@ -651,7 +658,11 @@ func WeirdC12(r *rand.Rand, n int) []*Case {
 		for try := 0; ; try++ {
 			ov = map[string]string{}
 			used = nil
-			if g%8 == 7 {
+			if g == 1 {
+				// the witness of known finding F49: the helper `h` of the hash plugin is shadowed by a local
+				ov["hash"] = "h"
+				used = []string{"hash"}
+			} else if g%8 == 7 {
 				// swapped defaults
 				sw := swaps[r.Intn(len(swaps))]
 				ov[sw[0]], ov[sw[1]] = def[sw[1]], def[sw[0]]
@@ -716,7 +727,11 @@ func WeirdC12(r *rand.Rand, n int) []*Case {
 			if ts == nil {
 				ts = deep[p]
 			}
-			pcs = append(pcs, pc{p, suffixes[r.Intn(len(suffixes))], ts[r.Intn(len(ts))]})
+			ty := ts[r.Intn(len(ts))]
+			if g == 1 {
+				ty = 0
+			}
+			pcs = append(pcs, pc{p, suffixes[r.Intn(len(suffixes))], ty})
 		}
 		mk := func(id, rename string, o map[string]string) *Case {
 			pl := Plugins("derive", o)
